@@ -420,3 +420,142 @@ def binding_judge_one(o, sc):
 
 
 binding_judge = no_panic_judge(binding_judge_one)
+
+
+# ------------------------------------------------------------------ C01 control flow and variables
+
+def control_battery():
+    S = [("in", "A", 8, 0), ("in", "B", 8, 0), ("out", "Y", 8)]
+    b = []
+
+    def sc(src, rows, note, **kw):
+        return Scenario(src, S, default_answer=[0], expect={"row_inputs": [[str(a), str(bb)] for a, bb in rows]}, note=note,
+                        max_rows=200, **kw)
+    b.append(sc("A B Y\nloop(i,3)\n(i) 0 X\nend loop\n9 9 X\n", [(0, 0), (1, 0), (2, 0), (9, 9)], "simple loop"))
+    b.append(sc("A B Y\nlet n = 3;\nrepeat(n) (n) 1 X\n", [(0, 1), (1, 1), (2, 1)], "repeat bound names the implicit counter"))
+    b.append(sc("A B Y\nlet i = 2;\nloop(i, i+2)\n(i) 0 X\nend loop\n(i) 7 X\n", [(0, 0), (1, 0), (2, 0), (3, 0), (2, 7)],
+                "bound mentions a variable named like the counter; outer binding uncovered afterwards"))
+    b.append(sc("A B Y\nloop(k,3)\nloop(k,k+1)\n(k) 5 X\nend loop\nend loop\n", [(0, 5), (0, 5), (1, 5), (0, 5), (1, 5), (2, 5)],
+                "nested loops sharing a counter name"))
+    b.append(sc("A B Y\nlet acc = 0;\nloop(i,4)\nlet acc = acc + i;\n(acc) (i) X\nend loop\n(acc) 0 X\n",
+                [(0, 0), (1, 1), (3, 2), (6, 3), (0, 0)], "let in a loop body lives until the loop ends"))
+    b.append(sc("A B Y\nlet t = 0;\nloop(i,4)\nlet t = 1 - t;\n(t) 0 X\nend loop\n", [(1, 0), (0, 0), (1, 0), (0, 0)],
+                "binding made in one iteration is visible in the next"))
+    b.append(sc("A B Y\nlet x = 0;\nwhile(x < 3)\nlet x = x + 1;\n(x) 0 X\nend while\n(x) 1 X\n",
+                [(1, 0), (2, 0), (3, 0), (3, 1)], "while opens no scope"))
+    b.append(sc("A B Y\nlet j = 0;\nloop(i,2)\nwhile(j < 3)\nlet j = j + 1;\n(i) (j) X\nend while\nend loop\n",
+                [(0, 1), (0, 2), (0, 3)], "while in loop: variable bound in the while survives"))
+    b.append(sc("A B Y\nwhile(0)\n1 1 X\nend while\n2 2 X\n", [(2, 2)], "zero-trip while"))
+    b.append(sc("A B Y\nbits(2,2) X\nbits(2,1) X\n", [(1, 0), (0, 1)], "bits most significant first"))
+    b.append(sc("A B Y\nloop(i,2)\nloop(j,2)\n(i) (j) X\nend loop\nend loop\n", [(0, 0), (0, 1), (1, 0), (1, 1)], "nested loops"))
+    b.append(sc("A B Y\nlet v = 1;\nloop(i,2)\nlet v = v + 1;\n(v) 0 X\nend loop\n(v) 0 X\n", [(2, 0), (3, 0), (1, 0)],
+                "rebinding inside the loop shadows; the outer binding comes back"))
+    return b + nonpositive_loop_scenarios(0) + nonpositive_loop_scenarios(-3)
+
+
+def nonpositive_loop_scenarios(bound):
+    S = [("in", "A", 8, 0), ("in", "B", 8, 0), ("out", "Y", 8)]
+    b = int(bound)
+    if b > 0:
+        b = 0
+    out = []
+    out.append(Scenario("A B Y\nloop(i,%s)\n1 1 X\nend loop\n2 2 X\n" % lit(b), S, default_answer=[0],
+                        expect={"row_inputs": [["2", "2"]]}, note="loop with bound %d runs no iteration" % b))
+    out.append(Scenario("A B Y\nrepeat(%s) 1 1 X\n2 2 X\n" % lit(b), S, default_answer=[0],
+                        expect={"row_inputs": [["2", "2"]]}, note="repeat with bound %d runs no iteration" % b))
+    out.append(Scenario("A B Y\nlet n = %s;\nloop(i,n)\n1 1 X\nend loop\n2 2 X\n" % lit(b), S, default_answer=[0],
+                        expect={"row_inputs": [["2", "2"]]}, note="loop with variable bound %d" % b))
+    return out
+
+
+def bits_scenarios(k):
+    k = max(1, min(int(k), 64))
+    names = " ".join("I%d" % i for i in range(k))
+    sigs = [("in", "I%d" % i, 1, 0) for i in range(k)]
+    v = (0xA5A5A5A5A5A5A5A5 >> 1) | 1
+    want = [str((v >> (k - 1 - i)) & 1) for i in range(k)]
+    return [Scenario("%s\nbits(%d, %d)\n" % (names, k, v), sigs, expect={"row_inputs": [want]}, note="bits(%d, ..)" % k)]
+
+
+control_judge = literal_judge
+
+
+# ------------------------------------------------------------------ C17 random / resetRandom
+
+BIG = "(1 << 62)"
+
+
+def random_battery():
+    S = [("in", "A", 1, 0)]
+    b = []
+    hdr = "A V\ndeclare V = 0;\n"
+    b.append(Scenario(hdr + "0 (random(%s))\n0 (random(%s))\nresetRandom;\n0 (random(%s))\n0 (random(%s))\n" % ((BIG,) * 4), S,
+                      expect={"replay": [(2, 0), (3, 1)], "range": (0, 1 << 62)}, note="resetRandom replays the draws"))
+    b.append(Scenario(hdr + "0 (random(random(%s) + 2))\n0 (random(%s))\nresetRandom;\nlet a = random(%s);\n0 (random(a + 2))\n0 (random(%s))\n" % ((BIG,) * 4), S,
+                      expect={"replay": [(2, 0), (3, 1)], "range": (0, (1 << 62) + 2)},
+                      note="bound containing a draw: the same bound sequence written with a variable gives the same draws"))
+    b.append(Scenario(hdr + "let en = 0;\n0 (en * random(%s))\n0 (random(%s))\nresetRandom;\n0 (random(%s))\n0 (random(%s))\n" % ((BIG,) * 4), S,
+                      expect={"replay": [(3, 1)], "range": (0, 1 << 62)}, note="a draw multiplied by zero is still a draw"))
+    b.append(Scenario(hdr + "let en = 0;\n0 (en & random(%s))\n0 (random(%s))\nresetRandom;\n0 (random(%s))\n0 (random(%s))\n" % ((BIG,) * 4), S,
+                      expect={"replay": [(3, 1)], "range": (0, 1 << 62)}, note="a draw and-ed with zero is still a draw"))
+    b.append(Scenario(hdr + "0 (ite(1, 7, random(%s)))\n0 (random(%s))\nresetRandom;\n0 (random(%s))\n" % ((BIG,) * 3), S,
+                      expect={"replay": [(2, 1)], "range": (0, 1 << 62)}, note="no draw in the unselected branch of ite"))
+    b.append(Scenario(hdr + "0 (random(%s))\nlet k = 0;\nwhile(k < 1)\nlet k = k + 1;\nresetRandom;\nend while\n0 (random(%s))\n" % ((BIG,) * 2), S,
+                      expect={"replay": [(1, 0)], "range": (0, 1 << 62)}, note="resetRandom inside a row-free while body"))
+    b.append(Scenario(hdr + "0 (random(%s))\nloop(i,2)\nresetRandom;\n0 (random(%s))\nend loop\n" % ((BIG,) * 2), S,
+                      expect={"replay": [(1, 0), (2, 0)], "range": (0, 1 << 62)}, note="resetRandom inside a loop"))
+    b.append(Scenario(hdr + "0 (random(2))\n0 (random(3))\n0 (random(2))\n", S, expect={"range": (0, 3)}, note="small bounds stay in range"))
+    return b
+
+
+def random_judge_one(o, sc):
+    vals = [r["outputs"][-1][1] for r in o.rows]
+    e = sc.expect
+    if any(i[0] == "err" for i in o.items):
+        return "a row using random() is an error item (%s)" % sc.note
+    lo, hi = e.get("range", (None, None))
+    for v in vals:
+        try:
+            iv = int(v)
+        except ValueError:
+            return "non-numeric value %s" % v
+        if lo is not None and not (lo <= iv < hi):
+            return "drawn value %d outside [%d, %d) (%s)" % (iv, lo, hi, sc.note)
+    for later, earlier in e.get("replay", []):
+        if later >= len(vals) or earlier >= len(vals):
+            return "only %d rows were produced (%s)" % (len(vals), sc.note)
+        if vals[later] != vals[earlier]:
+            return "row %d drew %s but row %d drew %s: the draws after resetRandom do not replay the start of the run (%s)" % (
+                later + 1, vals[later], earlier + 1, vals[earlier], sc.note)
+    return None
+
+
+random_judge = no_panic_judge(random_judge_one)
+
+
+# ------------------------------------------------------------------ C18 vars()
+
+def vars_battery():
+    S = [("in", "A", 8, 0), ("out", "B", 8), ("out", "Q", 8)]
+    b = []
+
+    def sc(src, vars_, note, **kw):
+        kw.setdefault("default_answer", [0, 0])
+        return Scenario(src, S, show_vars=True, expect={"vars": vars_}, note=note, max_rows=50, **kw)
+    b.append(sc("A B\nlet x = 5;\n1 X\nloop(i,2)\nlet y = i + 1;\n(i) X\nend loop\n2 X\n",
+                [{"x": "5"}, {"x": "5", "i": "0", "y": "1"}, {"x": "5", "i": "1", "y": "2"}, {"x": "5"}], "loop scope ends"))
+    b.append(sc("A B\nlet i = 3;\nloop(i,2)\n(i) X\nend loop\n(i) X\n", [{"i": "0"}, {"i": "1"}, {"i": "3"}], "shadowing and uncovering"))
+    b.append(sc("A B\nlet B = 2;\nloop(k,1)\n(B) X\nend loop\n", [{"B": "2", "k": "0"}], "variable named like a device output is reported",
+                default_answer=[9, 9]))
+    b.append(sc("A B\nlet Q = 3;\n(Q) X\n", [{"Q": "3"}], "variable named like an output the header does not mention", default_answer=[7, 7]))
+    b.append(sc("A B V\ndeclare V = 8 / B;\nlet x = 5;\n1 X X\n2 X X\n3 X X\n", [{"x": "5"}, {"x": "5"}],
+                "vars survive a failed row", answers={1: [1, 0], 2: [0, 0], 3: [1, 0]}, stop_on_err=False))
+    b.append(sc("A B\nlet i = 1;\nloop(i,5)\nlet i = 9223372036854775807;\n1 X\nend loop\n(i) X\n",
+                [{"i": "9223372036854775807"}, {"i": "1"}], "counter driven to i64::MAX: the frame is still popped"))
+    b.append(sc("A B\nloop(a,2)\nloop(b,2)\n1 X\nend loop\n2 X\nend loop\n",
+                [{"a": "0", "b": "0"}, {"a": "0", "b": "1"}, {"a": "0"}, {"a": "1", "b": "0"}, {"a": "1", "b": "1"}, {"a": "1"}],
+                "inner counter disappears with the inner loop"))
+    return b
+
+
+vars_judge = literal_judge
